@@ -18,7 +18,7 @@ MIN_CONCLUSIVE_FRACTION = 0.8
 
 
 def setup(tier):
-    common.install()
+    common.install(td_modules=("ramses_tx.parsers", "ramses_tx.protocol_fsm", "ramses_tx.protocol"))
 
 
 def queries(tier, seed):
